@@ -92,8 +92,6 @@ fn c03_rotate(n: usize) -> u8 {
             kani::assert(model::storage_get(&gw(), 1, &k(&DataKey::SignersHashByEpoch(e + 1))) == Some(model::val_of(&BytesN(h))), "VERIF:C03:new epoch maps to the set's hash");
             kani::assert(model::storage_get(&gw(), 1, &k(&DataKey::EpochBySignersHash(BytesN(h)))) == Some(model::val_of(&(e + 1))), "VERIF:C03:the set's hash maps to the new epoch");
             kani::assert(model::storage_get(&gw(), 0, &k(&DataKey::LastRotationTimestamp)) == Some(model::val_of(&t)), "VERIF:C09:every successful rotation restarts the clock");
-            kani::assert(model::events_len() == 1 && model::event_contract(0) == gw()
-                && model::event_topics(0) == model::topics_of(&(Symbol::new(&env, "signers_rotated"), e + 1, BytesN(h))), "VERIF:C03:one signers_rotated(new epoch, hash) event");
             kani::assert(model::storage_get(&gw(), 1, &k(&DataKey::EpochBySignersHash(wh.clone()))) == Some(model::val_of(&we))
                 && model::storage_get(&gw(), 1, &k(&DataKey::SignersHashByEpoch(we))) == Some(model::val_of(&wh)), "VERIF:C03:earlier installed sets keep their epoch (lookups stay mutually inverse)");
             1
